@@ -99,6 +99,14 @@ type fctx struct {
 	recvProv string
 	depth    int
 	fname    string
+	// parameters of function type that were given a function literal by the caller: the literal is walked where the
+	// callee calls the parameter, with the locks held there
+	funcArgs map[string]litArg
+}
+
+type litArg struct {
+	lit *ast.FuncLit
+	ctx *fctx
 }
 
 func (c *fctx) lkey(name string) string { return fmt.Sprintf("%d:%s", c.depth, name) }
@@ -724,6 +732,14 @@ func (w *accWalker) call(c *fctx, call *ast.CallExpr, ss []astate) []astate {
 	var recv ast.Expr
 	switch f := call.Fun.(type) {
 	case *ast.Ident:
+		if la, ok := c.funcArgs[f.Name]; ok {
+			for _, a := range call.Args {
+				ss = w.expr(c, a, ss, false)
+			}
+			cc := *la.ctx
+			cc.depth = c.depth + 1
+			return w.body(&cc, la.lit.Body, ss)
+		}
 		obj = info.Uses[f]
 	case *ast.SelectorExpr:
 		obj = info.Uses[f.Sel]
@@ -757,7 +773,14 @@ func (w *accWalker) call(c *fctx, call *ast.CallExpr, ss []astate) []astate {
 	} else if sel, ok := call.Fun.(*ast.SelectorExpr); ok {
 		ss = w.expr(c, sel, ss, false) // a function-typed field or a package function
 	}
+	var calleeDecl *ast.FuncDecl
+	if obj != nil {
+		calleeDecl = w.decls[obj]
+	}
 	for _, a := range call.Args {
+		if _, isLit := a.(*ast.FuncLit); isLit && calleeDecl != nil && calleeDecl.Body != nil {
+			continue // walked where the callee calls its parameter
+		}
 		wr := false
 		root := a
 		for {
@@ -848,6 +871,12 @@ func (w *accWalker) inline(c *fctx, fd *ast.FuncDecl, recv ast.Expr, args []ast.
 			for _, f := range fd.Type.Params.List {
 				for _, nm := range f.Names {
 					if i < len(args) {
+						if lit, ok := args[i].(*ast.FuncLit); ok {
+							if cc.funcArgs == nil {
+								cc.funcArgs = map[string]litArg{}
+							}
+							cc.funcArgs[nm.Name] = litArg{lit, c}
+						}
 						for k := range in {
 							if pv := w.prov(c, &in[k], args[i]); pv != "" {
 								in[k].prov[cc.lkey(nm.Name)] = pv
